@@ -388,7 +388,10 @@ func runC10(env *core.Env) {
 			return
 		}
 		if j.c.Busy && res.Exit == 0 {
-			report(env, "C10 kind=lock-ignored site="+j.c.Site, req.Shell()+" succeeded while the lock was held", Trace{Kind: "trace", Note: "needs an external lock holder; see detail"})
+			held := j.c.Req
+			held.Cwd, held.RandBase, held.HoldLock = ".", -1, true
+			report(env, "C10 kind=lock-ignored site="+j.c.Site, req.Shell()+" succeeded while the lock was held",
+				Trace{Kind: "trace", Store: pre, Note: "the harness holds an exclusive flock on .ergo/lock while the step runs", Steps: []core.Req{held}, Shell: []string{"flock -x .ergo/lock sleep 5 & sleep 1; " + j.c.Req.Shell()}, FailIf: []Assert{{Kind: "exit_zero", Step: 1}}})
 			return
 		}
 		if res.Exit == 0 {
@@ -414,7 +417,10 @@ func runC10(env *core.Env) {
 		sig := fmt.Sprintf("C10 site=%s changed=%s", j.c.Site, diff)
 		asserts := []Assert{{Kind: "exit_nonzero", Step: 1}, {Kind: "log_differs", Step: 1, Other: 0}}
 		if j.c.Busy {
-			report(env, sig, req.Shell()+" (lock busy) -> "+res.String(), Trace{Kind: "trace", Note: "needs an external lock holder"})
+			held := j.c.Req
+			held.Cwd, held.RandBase, held.HoldLock = ".", -1, true
+			report(env, sig, req.Shell()+" (lock busy) -> "+res.String(),
+				Trace{Kind: "trace", Store: pre, Note: "the harness holds an exclusive flock on .ergo/lock while the step runs", Steps: []core.Req{held}, Shell: []string{"flock -x .ergo/lock sleep 5 & sleep 1; " + j.c.Req.Shell()}, FailIf: asserts})
 			return
 		}
 		report(env, sig, fmt.Sprintf("pre-state %d: %s exits %d (%s) but changed the store: %s", j.pre, req.Shell(), res.Exit, clipS(string(res.Err), 160), diff),
